@@ -7,7 +7,7 @@ same point - for generic points and for the special positions where a naive form
 spherical reference systems).  Bounded (float): rbgeom_uset / rbcoords / formrbe3 on generated USET tables against an independent
 geometric oracle, with grids placed at the special angles.
 """
-import ast, hashlib, itertools, json, os, sys, time, traceback
+import contextlib, io, ast, hashlib, itertools, json, os, sys, time, traceback
 from types import SimpleNamespace
 import numpy as np
 import sympy as sp
@@ -369,6 +369,19 @@ def geometry_bounded(seed, n_it):
         ev += 1
         if not np.allclose(n2p.rbmove(n2p.rbgeom_uset(uset, r1), r1, r2), n2p.rbgeom_uset(uset, r2), atol=1e-9):
             return ev, dict(what="rbmove(rbgeom_uset(ref1)) != rbgeom_uset(ref2)")
+        # rbcoords: the node locations (relative to the reference point, in the reference frame) recovered from rigid-body modes whose nodes are in their own
+        # rectangular / cylindrical / spherical displacement systems
+        rbm = n2p.rbgeom_uset(uset, r1)
+        rows = np.hstack([uset.index.get_locs([g[0]]) for g in grids])
+        with contextlib.redirect_stdout(io.StringIO()):
+            crd, maxdev, maxerr = n2p.rbcoords(rbm[rows], verbose=0)
+        ev += 1
+        want_c = np.array([g[3] - r1 for g in grids])
+        if crd.shape != want_c.shape or not np.allclose(crd, want_c, atol=1e-7) or maxdev > 1e-6:
+            bad_ = int(np.argmax(abs(crd - want_c).max(axis=1))) if crd.shape == want_c.shape else -1
+            return ev, dict(what="rbcoords does not recover the node locations from rigid-body modes given in the nodes' own displacement systems", node=bad_,
+                            system_type=systems[grids[bad_][1]][0] if bad_ >= 0 else None, got=crd[bad_].tolist() if bad_ >= 0 else None,
+                            want=want_c[bad_].tolist() if bad_ >= 0 else None, maxdev=float(maxdev))
     return ev, None
 
 
